@@ -95,7 +95,7 @@ VARIANTS = {
     "rel": dict(cxx="g++", flags="-Wno-error -D" + GUARD, cmake=[], btype="RelWithDebInfo"),
     # assertions + ASan + UBSan (C14, C16)
     "san": dict(cxx="g++",
-                flags="-Wno-error -D" + GUARD + " -DENABLE_ASSERT -O1 -g -fsanitize=address,undefined "
+                flags="-Wno-error -D" + GUARD + " -DENABLE_ASSERT -O1 -g -fsanitize=address,undefined,float-cast-overflow "
                       "-fno-sanitize-recover=all -fno-omit-frame-pointer",
                 cmake=[], btype="None"),
     # C15 build variants
@@ -136,7 +136,8 @@ def ensure_build(variant="rel"):
     """Configure + build /repo's working tree for `variant`; returns the build dir."""
     v = VARIANTS[variant]
     d = os.path.join(cache_dir(), variant)
-    stamp = os.path.join(d, ".done")
+    # the stamp names the configuration, so that a changed flag set rebuilds the variant
+    stamp = os.path.join(d, ".done-" + hashlib.sha256(repr(sorted(v.items())).encode()).hexdigest()[:10])
     with Lock("build-" + variant):
         if os.path.exists(stamp):
             return d
@@ -318,6 +319,10 @@ def axiom_audit(module):
 # --------------------------------------------------------------------------- streams
 
 def run_harness(exe, ops_text, timeout=600, env=None):
+    # per-op alarm of the harness (HANG): 60 s unless the stream asks for more (the harness' own default of 20 s turned
+    # slow-but-finite ops into alarms when the machine was loaded); sanitizer builds are ~5x slower
+    env = dict(env or {})
+    env.setdefault("PCV_OP_TIMEOUT", os.environ.get("PCV_OP_TIMEOUT", "180" if "/san/" in exe else "60"))
     rc, out, err, secs = run([exe], input=ops_text, timeout=timeout, env=env)
     return rc, out.splitlines(), err, secs
 
